@@ -2,6 +2,7 @@ import ParryModel.Proto
 import ParryModel.C18.Model
 import ParryModel.C18.ModelAcd2
 import ParryModel.C18.DriverVox
+import ParryModel.C18.DriverMap3
 import Std.Data.HashSet
 /-! C18 protocol handlers. -/
 namespace C18
@@ -489,6 +490,8 @@ def handler (fn : String) : Option Handler :=
             | some bad => bad
             | none => hullOracle org sc parts hs)
           | none => "fail unparsable-output" }
-  | _ => handlerVox fn
+  | _ => match handlerVox fn with
+    | some h => some h
+    | none => handlerMap3 fn
 
 end C18
